@@ -54,6 +54,7 @@ const (
 type mv struct {
 	kind  mkind
 	K     *int64   // mInt: constant
+	Lo    *int64   // mInt: known lower bound when the value is one of several constants
 	Mag   *big.Int // mField: upper bound (nil = unknown)
 	Elems []*mv    // mAgg / mTuple; mSlice with known content (len == N)
 	Sum   *mv      // mSlice: join of all elements (always maintained)
@@ -119,6 +120,8 @@ func (v *mv) fp(sb *strings.Builder, d int) {
 	case mInt:
 		if v.K != nil {
 			fmt.Fprintf(sb, "i%d", *v.K)
+		} else if v.Lo != nil {
+			fmt.Fprintf(sb, "i>=%d", *v.Lo)
 		} else {
 			sb.WriteString("i?")
 		}
@@ -181,6 +184,19 @@ func mjoin(a, b *mv) *mv {
 	case mInt:
 		if a.K != nil && b.K != nil && *a.K == *b.K {
 			return a
+		}
+		lo := func(x *mv) *int64 {
+			if x.K != nil {
+				return x.K
+			}
+			return x.Lo
+		}
+		if la, lb := lo(a), lo(b); la != nil && lb != nil {
+			l := *la
+			if *lb < l {
+				l = *lb
+			}
+			return &mv{kind: mInt, Lo: &l}
 		}
 		return munkInt()
 	case mField:
@@ -322,6 +338,7 @@ type magAnalyzer struct {
 	steps    int
 	notes    map[string]bool
 	widthG   *big.Int
+	mute     bool
 }
 
 type memoRes struct {
@@ -350,6 +367,9 @@ func (m *magAnalyzer) cellID(key string) int {
 func (m *magAnalyzer) note(s string) { m.notes[s] = true }
 
 func (m *magAnalyzer) record(kind string, fn *ssa.Function, site token.Pos, ok, und bool, bits, limit int, why string) {
+	if m.mute {
+		return
+	}
 	key := fmt.Sprintf("%s@%d", kind, site)
 	o := m.obls[key]
 	ctx := m.rootName
@@ -390,7 +410,7 @@ func isFieldType(t types.Type) bool {
 // unknownOf: the abstract value of data of type t about which only the interface invariant is known
 // (field elements are canonical; integers unknown)
 func (m *magAnalyzer) unknownOf(t types.Type, depth int) *mv {
-	if depth > 8 {
+	if depth > 20 {
 		return &mv{kind: mOther}
 	}
 	if isFieldType(t) {
@@ -437,7 +457,7 @@ func (m *magAnalyzer) unknownOf(t types.Type, depth int) *mv {
 }
 
 func (m *magAnalyzer) zeroOf(t types.Type, depth int) *mv {
-	if depth > 8 {
+	if depth > 20 {
 		return &mv{kind: mOther}
 	}
 	if isFieldType(t) {
@@ -915,7 +935,7 @@ func (m *magAnalyzer) inGadget(fn *ssa.Function) bool {
 
 // canonicalOrReport: every field component of v is < p
 func (m *magAnalyzer) worstMag(v *mv, depth int) (*big.Int, bool) {
-	if v == nil || depth > 8 {
+	if v == nil || depth > 24 {
 		return big.NewInt(0), true
 	}
 	switch v.kind {
@@ -1142,6 +1162,9 @@ func (m *magAnalyzer) prim(f *mframe, st *mstate, c ssa.CallInstruction, g *ssa.
 		if len(com.Args) > 2 {
 			if w := m.val(f, com.Args[2]); w != nil && w.kind == mInt {
 				n = w.K
+				if n == nil {
+					n = w.Lo // one of several constants: the smallest width is the binding one
+				}
 			}
 		}
 		switch {
@@ -1279,17 +1302,35 @@ func (m *magAnalyzer) loopOf(fn *ssa.Function, b *ssa.BasicBlock) *SLoop {
 	return GetFnInfo(fn).HeaderOf[b]
 }
 
-// concreteLoop: the loop's continuation test is decidable at entry (counter and bound are constants)
-func (m *magAnalyzer) concreteLoop(f *mframe, l *SLoop) bool {
-	if l == nil || !l.Counted || l.Bound == nil || l.Phi == nil {
+// concreteLoop: the loop's continuation test is decidable at entry. The header (whose φ have been evaluated for the
+// entry edge) is evaluated on a scratch copy up to its terminator; a constant condition means plain execution
+// unrolls the loop.
+func (m *magAnalyzer) concreteLoop(f *mframe, st *mstate, l *SLoop) bool {
+	if l == nil {
 		return false
 	}
-	b := m.val(f, l.Bound)
-	if b == nil || b.kind != mInt || b.K == nil {
+	h := l.Header
+	iff, ok := h.Instrs[len(h.Instrs)-1].(*ssa.If)
+	if !ok {
 		return false
 	}
-	p := m.val(f, l.Phi)
-	return p != nil && p.kind == mInt && p.K != nil
+	saveEnv := f.env
+	f.env = f.cloneEnv()
+	scratch := st.clone()
+	saveObl := m.mute
+	m.mute = true
+	for _, ins := range h.Instrs {
+		switch ins.(type) {
+		case *ssa.Phi, *ssa.If:
+			continue
+		}
+		m.instr(f, scratch, ins)
+	}
+	m.mute = saveObl
+	c := m.val(f, iff.Cond)
+	f.env = saveEnv
+	_, known := m.isTrue(c)
+	return known
 }
 
 func (m *magAnalyzer) exec(f *mframe, st *mstate, b *ssa.BasicBlock, prev *ssa.BasicBlock, cx *mctx) *mstate {
@@ -1322,7 +1363,7 @@ func (m *magAnalyzer) run(f *mframe, st *mstate, b *ssa.BasicBlock, prev *ssa.Ba
 			return st
 		}
 		// a loop header reached from outside whose test is not decidable: solve by iteration
-		if l := m.loopOf(f.fn, b); l != nil && (prev == nil || !l.Blocks[prev]) && cx.loop != l && !m.concreteLoop(f, l) {
+		if l := m.loopOf(f.fn, b); l != nil && (prev == nil || !l.Blocks[prev]) && cx.loop != l && !m.concreteLoop(f, st, l) {
 			st2, nb, np, done := m.solveLoop(f, st, l, cx)
 			if done {
 				return st2
@@ -1905,8 +1946,8 @@ func (m *magAnalyzer) analyzeRoot(fn *ssa.Function) {
 func (m *magAnalyzer) magRoots() []*ssa.Function {
 	var out []*ssa.Function
 	for _, fn := range m.P.ModuleFuncsSorted() {
-		if fn.Pkg == nil || len(fn.Blocks) == 0 || m.inGadget(fn) || fn.Synthetic != "" {
-			continue
+		if fn.Pkg == nil || len(fn.Blocks) == 0 || m.gadget[fnPkgShort(fn)] || fn.Synthetic != "" {
+			continue // gadget-layer functions are analysed in the contexts that call them; the BN254 hash is native arithmetic
 		}
 		out = append(out, fn)
 	}
@@ -1949,4 +1990,105 @@ func debugMag(P *Program, filter string) {
 		fmt.Println("note:", k)
 	}
 	fmt.Printf("%d roots, %d obligations\n", n, len(m.obls))
+}
+
+// rulesW2 turns the analysis into obligations of property prop
+func rulesMagnitude(cx *Ctx, prop string) []Obligation {
+	P := cx.P
+	m := cx.mag
+	if m == nil {
+		m = newMagAnalyzer(P)
+		for _, fn := range m.magRoots() {
+			m.analyzeRoot(fn)
+		}
+		cx.mag = m
+	}
+	var obs []Obligation
+	keys := make([]string, 0, len(m.obls))
+	for k := range m.obls {
+		keys = append(keys, k)
+	}
+	sort.Slice(keys, func(i, j int) bool {
+		a, b := m.obls[keys[i]], m.obls[keys[j]]
+		if a.Site != b.Site {
+			return a.Site < b.Site
+		}
+		return a.Kind < b.Kind
+	})
+	descOf := map[string]string{
+		"reduce":    "honest fit: in every context reaching this reduction the value reduced is below p·2^n for the quotient width n in force, so the honest quotient passes its range check (worst case over all calling contexts; inputs of upper-layer functions canonical)",
+		"canonical": "honest fit: every operand that reaches MulAdd / Inverse is below p in every context (the hint functions refuse larger operands, so an unreduced operand makes honest proving fail)",
+		"no-wrap":   "no intermediate value of the Goldilocks gadgets reaches the BN254 scalar field in any context (the integer reasoning behind the quotient bounds holds)",
+	}
+	type agg struct {
+		n    int
+		bad  []string
+		und  []string
+		site string
+	}
+	iface := map[string]*agg{}
+	nPrim := 0
+	for _, k := range keys {
+		o := m.obls[k]
+		if o.Kind == "interface" {
+			pk := fnPkgShort(o.Fn)
+			a := iface[pk]
+			if a == nil {
+				a = &agg{}
+				iface[pk] = a
+			}
+			a.n++
+			if o.Und {
+				a.und = append(a.und, P.Pos(o.Site)+" "+o.Why)
+			} else if !o.OK {
+				a.bad = append(a.bad, P.Pos(o.Site)+" "+o.Why)
+			}
+			continue
+		}
+		nPrim++
+		key := fmt.Sprintf("%s/W2/%s/%s", prop, o.Kind, P.FnName(o.Fn))
+		site := fmt.Sprintf("%s worst case 2^%d of 2^%d via %s", P.Pos(o.Site), o.Bits, o.Limit, o.Ctx)
+		switch {
+		case o.Und:
+			obs = append(obs, Obligation{Key: key, Desc: descOf[o.Kind], Status: UNDECIDED, Detail: o.Why + " (context: " + o.Ctx + ")", Sites: []string{P.Pos(o.Site)}})
+		case !o.OK:
+			obs = append(obs, bad(key, descOf[o.Kind], fmt.Sprintf("%s: bound 2^%d exceeds the limit 2^%d in context %s", o.Why, o.Bits, o.Limit, o.Ctx), P.Pos(o.Site)))
+		default:
+			obs = append(obs, good(key, descOf[o.Kind], site))
+		}
+	}
+	pkgs := make([]string, 0, len(iface))
+	for p := range iface {
+		pkgs = append(pkgs, p)
+	}
+	sort.Strings(pkgs)
+	for _, pk := range pkgs {
+		a := iface[pk]
+		key := prop + "/W2/interface/" + pk
+		desc := "interface invariant of the magnitude analysis: every Goldilocks value an upper-layer function of this package returns, stores outside itself or passes to another upper-layer function is canonical (only the gadget layer handles unreduced values)"
+		switch {
+		case len(a.bad) > 0:
+			obs = append(obs, bad(key, desc, strings.Join(a.bad, "; ")))
+		case len(a.und) > 0:
+			obs = append(obs, Obligation{Key: key, Desc: desc, Status: UNDECIDED, Detail: strings.Join(a.und, "; ")})
+		default:
+			obs = append(obs, good(key, desc, fmt.Sprintf("%d crossings in package %s", a.n, pk)))
+		}
+	}
+	notes := make([]string, 0, len(m.notes))
+	for n := range m.notes {
+		notes = append(notes, n)
+	}
+	sort.Strings(notes)
+	for _, n := range notes {
+		if strings.Contains(n, "limit reached") || strings.Contains(n, "did not stabilise") {
+			obs = append(obs, undecided(prop+"/W2/engine", "the magnitude analysis completes", n))
+		} else {
+			obs = append(obs, Obligation{Key: prop + "/W2/assumption", Desc: "assumption of the magnitude analysis", Status: INFO, Detail: n})
+		}
+	}
+	if nPrim < 7 {
+		obs = append(obs, undecided(prop+"/W2/floor", "the reduction sites of the gadget layer are reached by the analysis", fmt.Sprintf("%d primitive sites evaluated, 7 confirmed by hand", nPrim)))
+	}
+	return obs
 }
